@@ -107,6 +107,7 @@ package lexer
 //@ assigns l.ch, l.position, l.readPosition, l.curLine
 //@ loop 1: invariant linv(l) && l.input == old(l.input) && l.inside == old(l.inside) && fuel(l) <= old(fuel(l)) && l.position <= len(l.input) && position == old(l.position)+1
 //@ loop 1: invariant started: (l.position == old(l.position) && l.ch != 0) || (l.position >= position && fuel(l) < old(fuel(l)))
+//@ loop 1: invariant raw: (forall j int :: old(l.position) < j && j < l.position ==> l.input[j] != '`') && (l.position > old(l.position) ==> l.ch != '`')
 //@ loop 1: decreases fuel(l)
 
 // C02: literal text. A tag starts at j when in[j..j+1] == "<%"; it is live unless the byte before it
